@@ -100,6 +100,7 @@ func profileFor(prop, tier string) profile {
 		base.endings = []string{"close", "close", "reset", "unbind", "", "halfclose"}
 		base.onClose = []int{1}
 		base.lateClient = true
+		base.faults, base.faultBudget = []string{"accept"}, 2
 	case "C10":
 		base.maxConns, base.maxReqs, base.unbindPct = 3, pick(8, 20), 100
 		base.endings = []string{"", "", "close"}
@@ -305,6 +306,7 @@ func DrawCore(prop, tier string, ch *Chooser, lean bool, s *Sim) *Core {
 	}
 	if ch.Chance(p.tlsPct) {
 		cfg.TLSMode = 1 + ch.Choose(2)
+		cfg.TLSViaCallback = ch.Choose(3) == 2
 	}
 	if !cfg.Malformed && ch.Chance(p.busyPortPct) {
 		cfg.BusyPort = true
@@ -453,6 +455,23 @@ func DrawCore(prop, tier string, ch *Chooser, lean bool, s *Sim) *Core {
 			}
 		}
 		flush(false)
+		if cl.Flavour == 2 && prop == "C13" && ch.Choose(4) == 3 {
+			// plaintext injection: a request in the clear right behind the
+			// StartTLS request, in the same segment. It must never be served,
+			// neither before nor inside the tunnel.
+			for si := range cl.Steps {
+				for _, q := range cl.Steps[si].Reqs {
+					if q.Script.StartTLS {
+						x := plainRequest(g)
+						t, _ := x.TLV()
+						xq := &Req{Rec: x, Bytes: t.Enc(), Client: i, Injected: true, Script: &Script{Resps: []*RespSpec{g.Resp(x.Op, true, false)}}}
+						c.reqs[x.MsgID] = xq
+						cl.Steps[si].Data = append(append([]byte{}, cl.Steps[si].Data...), xq.Bytes...)
+						cl.Injecting, cl.disturbed = true, true
+					}
+				}
+			}
+		}
 		if ch.Chance(p.pausePct) && len(cl.Steps) > 0 && cl.Flavour == 0 {
 			at := ch.Choose(len(cl.Steps))
 			cl.Steps = append(cl.Steps[:at], append([]CStep{{Kind: stPause}}, cl.Steps[at:]...)...)
@@ -604,7 +623,8 @@ func (c *Core) drawC02(ch *Chooser, g *Gen, s *Sim, tier string) {
 	cfg := c.Cfg
 	initCanon()
 	const B = 6
-	nBlocks := (canonTotal + B - 1) / B
+	total := canonTotal + tinyTotal
+	nBlocks := (total + B - 1) / B
 	block := ch.Enum(nBlocks+1, s.RunIndex)
 	cfg.NoRecovery = ch.Choose(2) == 1
 	cfg.LogLevel = 1 + hclogLevel(ch.Choose(3))
@@ -615,7 +635,7 @@ func (c *Core) drawC02(ch *Chooser, g *Gen, s *Sim, tier string) {
 			q.Script.Resps = []*RespSpec{g.Resp(rec.Op, true, false)}
 		}
 		c.reqs[rec.MsgID] = q
-		cl.Steps = append(cl.Steps, CStep{Kind: stSend, Data: bytes, Reqs: []*Req{q}, WaitAll: !corrupt && len(cl.Steps) == 2})
+		cl.Steps = append(cl.Steps, CStep{Kind: stSend, Data: bytes, Reqs: []*Req{q}, WaitAll: !corrupt && len(cl.Steps) >= 1 && cl.Steps[len(cl.Steps)-1].Reqs[0].Corrupt})
 		if corrupt {
 			c.mutants = append(c.mutants, fmt.Sprintf("%s: %s", cl.name(), desc))
 		}
@@ -639,7 +659,7 @@ func (c *Core) drawC02(ch *Chooser, g *Gen, s *Sim, tier string) {
 		var desc string
 		if block < nBlocks {
 			gi := block*B + k
-			if gi >= canonTotal {
+			if gi >= total {
 				break
 			}
 			frame, desc = singleMutant(gi)
@@ -651,9 +671,16 @@ func (c *Core) drawC02(ch *Chooser, g *Gen, s *Sim, tier string) {
 			frame, desc = doubleMutant(ch)
 			s.Probes["C02-double-point-mutants"]++
 		}
-		valid(cl)
+		// a third of the mutants, and every tiny stream, are the first thing
+		// the connection ever sends
+		first := ch.Choose(3) == 2 || (block < nBlocks && block*B+k >= canonTotal)
+		if !first {
+			valid(cl)
+		}
 		add(cl, &ReqRec{Op: "mutant", MsgID: g.MsgID()}, frame, true, desc)
-		valid(cl)
+		if len(frame) > 2 {
+			valid(cl)
+		}
 		if ch.Choose(3) == 0 {
 			cl.Steps = append(cl.Steps, CStep{Kind: stClose})
 		}
